@@ -54,29 +54,30 @@ VARIABLES
   cancelled, \* instances whose context was cancelled
   stopped,   \* instances for which Stop returned (ghost)
   refs,      \* composed kinds some XR of the controller references (environment)
+  drefs,     \* ... those of them that only an XR that is being deleted (held by a finalizer) references: they still count
   pc, op, arg, cI, aS, used, run,   \* per caller: segment, operation, argument, controller pointer, snapshot, collector locals
   nops,
   bad,       \* ghost: violated step properties
   hist
 
-vars == <<ctl, ninst, srcs, nsrc, srcInst, srcWid, regs, active, cancelled, stopped, refs, pc, op, arg, cI, aS, used, run, nops, bad, hist>>
-view == <<ctl, ninst, srcs, nsrc, srcInst, srcWid, regs, active, cancelled, stopped, refs, pc, op, arg, cI, aS, used, run, nops, bad>>
+vars == <<ctl, ninst, srcs, nsrc, srcInst, srcWid, regs, active, cancelled, stopped, refs, drefs, pc, op, arg, cI, aS, used, run, nops, bad, hist>>
+view == <<ctl, ninst, srcs, nsrc, srcInst, srcWid, regs, active, cancelled, stopped, refs, drefs, pc, op, arg, cI, aS, used, run, nops, bad>>
 
 Insts == 1..MaxInst
 SrcIds == 1..MaxSrc
 NoSrcs == [w \in Wids |-> 0]
 Range(s) == {s[i] : i \in DOMAIN s}
-H(p, o, seg, c, a, r) == [p |-> p, op |-> o, seg |-> seg, c |-> c, a |-> a, r |-> r]
+H(p, o, seg, c, a, r) == [p |-> p, op |-> o, seg |-> seg, c |-> c, a |-> a, r |-> r, d |-> {}]
 Log(e) == hist' = Append(hist, e)
 
 Init ==
   /\ ctl = [c \in Ctrls |-> 0] /\ ninst = 0 /\ srcs = [i \in Insts |-> NoSrcs] /\ nsrc = 0
   /\ srcInst = [s \in SrcIds |-> 0] /\ srcWid = [s \in SrcIds |-> "xr"]
-  /\ regs = {} /\ active = {} /\ cancelled = {} /\ stopped = {} /\ refs \in SUBSET Composed
+  /\ regs = {} /\ active = {} /\ cancelled = {} /\ stopped = {} /\ refs \in SUBSET Composed /\ drefs \in SUBSET refs
   /\ pc = [p \in Procs |-> "idle"] /\ op = [p \in Procs |-> "none"] /\ arg = [p \in Procs |-> <<>>]
   /\ cI = [p \in Procs |-> 0] /\ aS = [p \in Procs |-> {}] /\ used = [p \in Procs |-> {}] /\ run = [p \in Procs |-> {}]
   /\ nops = [p \in Procs |-> 0] /\ bad = {}
-  /\ hist = << [p |-> 0, op |-> "init", seg |-> 0, c |-> "", a |-> refs, r |-> ""] >>
+  /\ hist = << [p |-> 0, op |-> "init", seg |-> 0, c |-> "", a |-> refs, r |-> "", d |-> drefs] >>
 
 Idle(p) == pc[p] = "idle" /\ nops[p] < MaxOps
 Done(p) == /\ pc' = [pc EXCEPT ![p] = "idle"] /\ nops' = [nops EXCEPT ![p] = @ + 1]
@@ -90,7 +91,7 @@ Start(p, c) ==
   /\ (IF ctl[c] # 0 THEN UNCHANGED <<ctl, ninst>>
       ELSE ctl' = [ctl EXCEPT ![c] = ninst + 1] /\ ninst' = ninst + 1)
   /\ Log(H(p, "Start", 1, c, {}, "ok")) /\ Done(p)
-  /\ UNCHANGED <<srcs, nsrc, srcInst, srcWid, regs, active, cancelled, stopped, refs, bad>> /\ UNCHANGED Locals
+  /\ UNCHANGED <<srcs, nsrc, srcInst, srcWid, regs, active, cancelled, stopped, refs, drefs, bad>> /\ UNCHANGED Locals
 
 \* Stop(name): under e.mx and c.mx: stop every source (remove its handler), cancel, forget the controller.
 Stop(p, c) ==
@@ -102,17 +103,17 @@ Stop(p, c) ==
           /\ cancelled' = cancelled \cup {i} /\ stopped' = stopped \cup {i}
           /\ ctl' = [ctl EXCEPT ![c] = 0]
   /\ Log(H(p, "Stop", 1, c, {}, "ok")) /\ Done(p)
-  /\ UNCHANGED <<ninst, nsrc, srcInst, srcWid, active, refs, bad>> /\ UNCHANGED Locals
+  /\ UNCHANGED <<ninst, nsrc, srcInst, srcWid, active, refs, drefs, bad>> /\ UNCHANGED Locals
 
 IsRunning(p, c) ==
   /\ Idle(p) /\ "IsRunning" \in OpKinds
   /\ Log(H(p, "IsRunning", 1, c, {}, IF ctl[c] # 0 THEN "true" ELSE "false")) /\ Done(p)
-  /\ UNCHANGED Eng /\ UNCHANGED <<refs, bad>> /\ UNCHANGED Locals
+  /\ UNCHANGED Eng /\ UNCHANGED <<refs, drefs, bad>> /\ UNCHANGED Locals
 
 GetWatches(p, c) ==
   /\ Idle(p) /\ "GetWatches" \in OpKinds
   /\ Log(H(p, "GetWatches", 1, c, IF ctl[c] = 0 THEN {} ELSE {w \in Wids : srcs[ctl[c]][w] # 0}, IF ctl[c] = 0 THEN "err" ELSE "ok")) /\ Done(p)
-  /\ UNCHANGED Eng /\ UNCHANGED <<refs, bad>> /\ UNCHANGED Locals
+  /\ UNCHANGED Eng /\ UNCHANGED <<refs, drefs, bad>> /\ UNCHANGED Locals
 
 \* StartWatches, segment 1: look the controller up (e.mx.RLock), snapshot the active informers. No lock is held afterwards.
 SW1(p, c, ws) ==
@@ -122,7 +123,7 @@ SW1(p, c, ws) ==
       ELSE /\ Log(H(p, "StartWatches", 1, c, Range(ws), "")) /\ pc' = [pc EXCEPT ![p] = "sw2"] /\ UNCHANGED nops
            /\ cI' = [cI EXCEPT ![p] = ctl[c]] /\ aS' = [aS EXCEPT ![p] = active]
            /\ op' = [op EXCEPT ![p] = c] /\ arg' = [arg EXCEPT ![p] = ws] /\ UNCHANGED <<used, run>>)
-  /\ UNCHANGED Eng /\ UNCHANGED <<refs, bad>>
+  /\ UNCHANGED Eng /\ UNCHANGED <<refs, drefs, bad>>
 
 \* StartWatches, segment 2: under c.mx: (read lock) anything to start? (write lock) start every watch that is missing or
 \* whose informer is not active - according to the snapshot taken in segment 1, unless FixSnapshot.
@@ -151,7 +152,7 @@ SW2(p) ==
              /\ bad' = bad \cup (IF \E w \in Range(ws) : G(w) \notin aS[p] /\ ~(\E s \in res[2] : s > 0 /\ res[1][w] = s)
                                  THEN {"Reestablish"} ELSE {})
   /\ Done(p)
-  /\ UNCHANGED <<ctl, ninst, cancelled, stopped, refs>> /\ UNCHANGED Locals
+  /\ UNCHANGED <<ctl, ninst, cancelled, stopped, refs, drefs>> /\ UNCHANGED Locals
 
 \* StopWatches(name, wids): atomic (no call-out between its lookup and its locks).
 StopSet(i, ws) == {srcs[i][w] : w \in ws}
@@ -163,14 +164,14 @@ StopWatches(p, c, ws) ==
           /\ srcs' = [srcs EXCEPT ![i] = [w \in Wids |-> IF w \in ws THEN 0 ELSE @[w]]]
           /\ Log(H(p, "StopWatches", 1, c, ws, "ok"))
   /\ Done(p)
-  /\ UNCHANGED <<ctl, ninst, nsrc, srcInst, srcWid, active, cancelled, stopped, refs, bad>> /\ UNCHANGED Locals
+  /\ UNCHANGED <<ctl, ninst, nsrc, srcInst, srcWid, active, cancelled, stopped, refs, drefs, bad>> /\ UNCHANGED Locals
 
 \* The collector: list the XRs (which composed kinds are referenced) ...
 GC1(p, c) ==
   /\ Idle(p) /\ "GC" \in OpKinds
   /\ used' = [used EXCEPT ![p] = refs] /\ op' = [op EXCEPT ![p] = c]
   /\ pc' = [pc EXCEPT ![p] = "gc2"] /\ Log(H(p, "GC", 1, c, refs, ""))
-  /\ UNCHANGED Eng /\ UNCHANGED <<refs, bad, nops, cI, aS, run, arg>>
+  /\ UNCHANGED Eng /\ UNCHANGED <<refs, drefs, bad, nops, cI, aS, run, arg>>
 \* ... ask the engine which watches run ...
 GC2(p) ==
   /\ pc[p] = "gc2"
@@ -178,7 +179,7 @@ GC2(p) ==
      IF i = 0 THEN Log(H(p, "GC", 2, op[p], {}, "err")) /\ Done(p) /\ UNCHANGED run
      ELSE /\ run' = [run EXCEPT ![p] = {w \in Wids : srcs[i][w] # 0}] /\ pc' = [pc EXCEPT ![p] = "gc3"] /\ UNCHANGED nops
           /\ Log(H(p, "GC", 2, op[p], {w \in Wids : srcs[i][w] # 0}, ""))
-  /\ UNCHANGED Eng /\ UNCHANGED <<refs, bad, cI, aS, used, op, arg>>
+  /\ UNCHANGED Eng /\ UNCHANGED <<refs, drefs, bad, cI, aS, used, op, arg>>
 \* ... and stop those it believes unused.
 GcStops(p) == {w \in run[p] : w \notin used[p] /\ (FixGC => w \in Composed)}
 GC3(p) ==
@@ -191,19 +192,21 @@ GC3(p) ==
               /\ srcs' = [srcs EXCEPT ![i] = [w \in Wids |-> IF w \in ws THEN 0 ELSE @[w]]])
      /\ Log(H(p, "GC", 3, op[p], ws, IF ws # {} /\ i = 0 THEN "err" ELSE "ok"))
   /\ Done(p)
-  /\ UNCHANGED <<ctl, ninst, nsrc, srcInst, srcWid, active, cancelled, stopped, refs>> /\ UNCHANGED Locals
+  /\ UNCHANGED <<ctl, ninst, nsrc, srcInst, srcWid, active, cancelled, stopped, refs, drefs>> /\ UNCHANGED Locals
 
 \* The informer of a kind is removed (its CRD was deleted): every handler registered on it is gone.
 RemoveInformer(p, g) ==
   /\ Idle(p) /\ "RemoveInformer" \in OpKinds /\ g \in active
   /\ active' = active \ {g} /\ regs' = {s \in regs : G(srcWid[s]) # g}
   /\ Log(H(p, "RemoveInformer", 1, "", {g}, "ok")) /\ Done(p)
-  /\ UNCHANGED <<ctl, ninst, srcs, nsrc, srcInst, srcWid, cancelled, stopped, refs, bad>> /\ UNCHANGED Locals
+  /\ UNCHANGED <<ctl, ninst, srcs, nsrc, srcInst, srcWid, cancelled, stopped, refs, drefs, bad>> /\ UNCHANGED Locals
 
 \* Environment: the XRs' resource references change.
 ChangeRefs(p) ==
   /\ Idle(p) /\ "ChangeRefs" \in OpKinds
-  /\ \E r \in SUBSET Composed : r # refs /\ refs' = r /\ Log(H(p, "ChangeRefs", 1, "", r, "ok"))
+  /\ \E r \in SUBSET Composed : \E d \in SUBSET r :
+        /\ <<r, d>> # <<refs, drefs>> /\ refs' = r /\ drefs' = d
+        /\ Log([p |-> p, op |-> "ChangeRefs", seg |-> 1, c |-> "", a |-> r, r |-> "ok", d |-> d])
   /\ Done(p) /\ UNCHANGED Eng /\ UNCHANGED bad /\ UNCHANGED Locals
 
 Next == \E p \in Procs :
